@@ -122,6 +122,26 @@ func RunReal(src string, inputs map[string]r.Element) (o Outcome) {
 	return
 }
 
+// RunRealWith executes a script through a given (possibly shared) interpreter.
+func RunRealWith(in *exec.Interpreter, src string, inputs map[string]r.Element) (o Outcome) {
+	traceBuf = nil
+	traceOn = true
+	defer func() {
+		traceOn = false
+		o.Trace = traceBuf
+		if p := recover(); p != nil {
+			o.Panic = fmt.Sprint(p)
+			o.Stack = stack()
+		}
+	}()
+	if inputs == nil {
+		inputs = r.ElementMap{}
+	}
+	v, err := in.LoadScript([]rune(src)).Execute(inputs)
+	o.fill(v, err)
+	return
+}
+
 // RunRealVM executes a script with the same steps as Interpreter.Execute spelled
 // out through exported calls, so that the VM can be inspected afterwards.
 func RunRealVM(src string, inputs map[string]r.Element) (o Outcome, vm *r.VM) {
